@@ -5,11 +5,17 @@ the writer entry points onto a simulated device, optionally damage the
 stored bytes or the device, load it back through one of the reader entry
 points, and compare with the independent three-valued reference reader.
 """
+import importlib
 import sys
 
 import cnfgen
+import cnfgen.utils.parsedimacs as _parsedimacs
 from cnfgen import CNF
 from cnfgen.utils.parsedimacs import to_dimacs_file
+from cnfgen.clitools.cnfgen import cli as cnfgen_cli
+from cnfgen.clitools.cnfshuffle import cli as cnfshuffle_cli
+from cnfgen.clitools.cmdline import CLIError
+import cnfgen.clitools.msg as climsg
 
 from detsim.core import Violation, call, exc_signature
 from detsim.refmodels import cnfref
@@ -64,9 +70,9 @@ MANIFEST = {
 }
 CONFIGS = {
     "quick": [("roundtrip", 14000), ("damage", 22000), ("truncate", 1500),
-              ("text", 12000)],
+              ("text", 12000), ("sequence", 8000)],
     "thorough": [("roundtrip", 3), ("damage", 5), ("truncate", 1),
-                 ("text", 3)],
+                 ("text", 3), ("sequence", 2)],
 }
 CHUNK = 150
 
@@ -132,11 +138,47 @@ def _gen_store(rng):
 
 
 def _gen_load(rng):
-    return {"how": rng.choice(["file", "file", "stream", "stdin"]),
+    how = rng.choice(["file", "file", "stream", "stdin"])
+    if rng.random() < 0.07:
+        # the command line entry points (~35 ms each: kept rare)
+        how = rng.choice(["cli_dimacs", "cli_dimacs_stdin",
+                          "cnfshuffle_identity",
+                          "cnfshuffle_identity_stdin"])
+    return {"how": how,
             "chunk": rng.choice([None, None, 1, 2, 3, 5, 7])}
 
 
+def _valid_text(rng):
+    n, clauses = cnfref.random_cnf(rng, max_vars=6, max_clauses=6)
+    lines = ["c a formula", "p cnf %d %d" % (n, len(clauses))]
+    for c in clauses:
+        toks = [str(l) for l in c] + ["0"]
+        if len(toks) > 2 and rng.random() < 0.3:
+            k = rng.randrange(1, len(toks))
+            lines.append(" ".join(toks[:k]))      # clause over two lines
+            lines.append(" ".join(toks[k:]))
+        else:
+            lines.append(" ".join(toks))
+    return "\n".join(lines) + "\n"
+
+
 def generate(rng, config):
+    if config == "sequence":
+        # several reads in ONE process: a failed read must not influence
+        # the next one
+        texts = []
+        for _ in range(rng.choice([2, 3, 4])):
+            t = _valid_text(rng)
+            r = rng.random()
+            if r < 0.45:
+                d, _ = damage(t.encode(), rng, kinds=(
+                    "truncate", "token", "drop_final_zero", "flip",
+                    "splice"))
+                t = d.decode("utf-8", "replace")
+            elif r < 0.55:
+                t = _gen_text(rng)
+            texts.append(t)
+        return {"texts": texts, "load": _gen_load(rng), "faults": []}
     if config == "text":
         return {"text": _gen_text(rng), "load": _gen_load(rng), "faults": []}
     case = {"formula": _gen_family(rng) if rng.random() < 0.3
@@ -152,6 +194,8 @@ def generate(rng, config):
                                    "at": rng.choice([0, 1, 5, 20, 60, 200])})
     elif config == "truncate":
         case["faults"] = [{"kind": "truncate_all"}]
+        if case["load"]["how"].startswith(("cli", "cnfshuffle")):
+            case["load"]["how"] = "file"
         case["store"]["header"] = rng.random() < 0.3
     return case
 
@@ -261,10 +305,32 @@ def _load(data, ld, fs, ctx, name="in.cnf", plan_extra=None):
         return call(CNF.from_file, stream)
     saved = sys.stdin
     sys.stdin = stream
+    climsg._prefix = ""
     try:
-        return call(CNF.from_file, None)
+        if how == "stdin":
+            return call(CNF.from_file, None)
+        # the command line entry points ('cnfgen dimacs', cnfshuffle with
+        # every component switched off) must read the same formula
+        if how in ("cli_dimacs", "cnfshuffle_identity"):
+            fs.put(name, data, plan=plan)
+        if how == "cli_dimacs":
+            r = call(cnfgen_cli, ["cnfgen", "-q", "dimacs", name],
+                     mode="formula")
+        elif how == "cli_dimacs_stdin":
+            r = call(cnfgen_cli, ["cnfgen", "-q", "dimacs"], mode="formula")
+        elif how == "cnfshuffle_identity":
+            r = call(cnfshuffle_cli, ["cnfshuffle", "-p", "-v", "-c", "-i",
+                                      name], mode="formula")
+        else:
+            r = call(cnfshuffle_cli, ["cnfshuffle", "-p", "-v", "-c"],
+                     mode="formula")
+        if r[0] == "exc" and isinstance(r[1], CLIError):
+            # the tools report a malformed input as a command-line error
+            return ("exc", ValueError(str(r[1])))
+        return r
     finally:
         sys.stdin = saved
+        climsg._prefix = ""
 
 
 def _judge(data, res, ctx, where, eio=False):
@@ -318,9 +384,24 @@ def _judge(data, res, ctx, where, eio=False):
 
 
 def execute(case, ctx):
+    # canonical reset: no parser state may survive from an earlier run of
+    # this process (module-level / class-level state is re-created)
+    importlib.reload(_parsedimacs)
     fs = SimFS(on_fire=ctx.fault)
     ld = case["load"]
     with open_router(fs):
+        if "texts" in case:
+            for k, t in enumerate(case["texts"]):
+                data = t.encode("utf-8", "surrogatepass")
+                res = _load(data, ld, fs, ctx, name="in%d.cnf" % k)
+                ctx.log("read", k, len(data), ld["how"], res[0])
+                _judge(data, res, ctx, "read #%d of %d in one process, "
+                       "earlier texts %r, load=%r" %
+                       (k + 1, len(case["texts"]), case["texts"][:k], ld))
+            ctx.shape = (case["texts"], ld["how"])
+            ctx.nontrivial = True
+            ctx.probe("several reads in one process")
+            return
         if "text" in case:
             data = case["text"].encode("utf-8", "surrogatepass")
             res = _load(data, ld, fs, ctx)
